@@ -44,23 +44,24 @@ def _replacement_shape(fn, inner, want):
 
 
 def r10a(chk, rid='R10.a'):
-    chk.rule(rid, 'DOM-name mapping, exhaustively over the property tables: with the two converter patterns read from the source (and their replacement functions confirmed to be "capitalise the letter after the hyphen" / "hyphen + lower-case"), converting a property name to its DOM name and back yields the name again, for every key of every properties[...] table')
+    chk.rule(rid, 'DOM-name mapping, exhaustively over the property tables: _toDOMname and _toCSSname are evaluated on their syntax trees (with the module-level patterns they use): converting a property name to its DOM name and back yields the name again, for every key of every properties[...] table')
     m = chk.repo.mod(PROPS)
-    p1, f1, _ = class_regex(m, None, '_reCSStoDOMname')
-    p2, f2, _ = class_regex(m, None, '_reDOMtoCSSname')
+    from sa.absint import Evaluator, Raised
+
     to_dom = m.get('_toDOMname')
     to_css = m.get('_toCSSname')
-    ok1 = _replacement_shape(to_dom, '_doCSStoDOMname2', 'm.group(0)[1].capitalize()') and '_reCSStoDOMname.sub(_doCSStoDOMname2, CSSname)' in ast.unparse(to_dom)
-    ok2 = _replacement_shape(to_css, '_doDOMtoCSSname2', "'-' + m.group(0).lower()") and '_reDOMtoCSSname.sub(_doDOMtoCSSname2, DOMname)' in ast.unparse(to_css)
-    if not (ok1 and ok2):
-        raise AnalysisError('cssproperties.py: the converter functions no longer have the analysed shape')
-    r1, r2 = re.compile(p1, f1), re.compile(p2, f2)
 
     def dom(n):
-        return r1.sub(lambda mo: mo.group(0)[1].capitalize(), n)
+        r = Evaluator(to_dom, module=m).run(CSSname=n)
+        if isinstance(r, Raised) or not isinstance(r, str):
+            raise AnalysisError(f'_toDOMname({n!r}): {r!r}')
+        return r
 
     def css(n):
-        return r2.sub(lambda mo: '-' + mo.group(0).lower(), n)
+        r = Evaluator(to_css, module=m).run(DOMname=n)
+        if isinstance(r, Raised) or not isinstance(r, str):
+            raise AnalysisError(f'_toCSSname({n!r}): {r!r}')
+        return r
 
     pt = ProfileTables(chk.repo)
     names = sorted({n for t in pt.properties.values() for n in t})
